@@ -13,6 +13,32 @@ therefore counts each peer at most once per election — `voters` is kept duplic
 namespace Tinode.Election
 open Tinode.Gen.Election
 
+/-! ### every statement which writes the node's term (read off the regenerated shape)
+
+The interleaving model below takes three term updates from the source: the election's own step, the grant of a vote, the adoption of
+a newer leader's term.  That these are the only places where the code writes `c.fo.term` is a fact about the shape: the statements of
+the regenerated statement list whose last component assigns `c.fo.term`, other than those three under their guards. -/
+
+def termWritePrefixes : List (List Char) :=
+  ["c.fo.term =", "c.fo.term++", "c.fo.term--", "c.fo.term +=", "c.fo.term -=", "c.fo.term, ", "c.fo.term:=", "c.fo.term :="].map String.toList
+
+/-- does some `/`-separated component of the path begin with an assignment to the term (structural, so that the kernel evaluates it) -/
+def writesTermChars : List Char → Bool → Bool
+  | [], _ => false
+  | c :: cs, atStart =>
+    (atStart && termWritePrefixes.any (fun p => p.isPrefixOf (c :: cs))) || writesTermChars cs (c == '/')
+
+def writesTerm (path : String) : Bool := writesTermChars path.toList true
+
+/-- the three writes the model has, each with the guard statement which must stand in front of it -/
+def allowedTermWrites : List (String × String) := [
+  ("vote/then/c.fo.term = vreq.req.Term", "vote/if c.fo.term < vreq.req.Term"),
+  ("health/then/c.fo.term = health.Term", "health/if health.Term > c.fo.term"),
+  ("elect/c.fo.term++", "elect/c.fo.term++")]
+
+def badTermWrites (shape : List String) : List String :=
+  (shape.filter writesTerm).filter (fun p => !(allowedTermWrites.any (fun (w, g) => w == p && shape.contains g)))
+
 structure Node where
   term : Int
   leader : Option Nat            -- none is the empty leader name
